@@ -122,14 +122,19 @@ def _make_faulty_open(real_open, fault):
     target = fault.get("path")
     limit = fault["write_after"]
 
+    used = []
+
     def faulty_open(file, mode="r", *a, **kw):
         f = real_open(file, mode, *a, **kw)
+        if used and fault.get("exc") == "assertion":
+            return f            # a single fault: the handle through which a tool restores the file is not faulted
         try:
             name = os.path.basename(os.fsdecode(file)) if isinstance(file, (str, bytes)) else None
         except Exception:
             name = None
         if name == target and any(c in mode for c in "wa"):
-            return _LimitedWriter(f, limit)
+            used.append(1)
+            return _LimitedWriter(f, limit, fault.get("exc", "oserror"))
         return f
     return faulty_open
 
@@ -137,14 +142,20 @@ def _make_faulty_open(real_open, fault):
 class _LimitedWriter:
     """Proxy that lets `limit` characters through and then fails like a full disk."""
 
-    def __init__(self, f, limit):
-        self._f, self._left = f, limit
+    def __init__(self, f, limit, exc="oserror"):
+        self._f, self._left, self._exc, self._spent = f, limit, exc, False
 
     def write(self, s):
-        if len(s) > self._left:
+        if len(s) > self._left and not self._spent:
             self._f.write(s[:self._left])
-            self._f.flush()
             self._left = 0
+            self._spent = True          # a single fault: later writes through this handle (none expected) pass
+            if self._exc == "assertion":
+                # the serializer gives up part-way (what ruamel's emitter does on an inconsistent event stream): the
+                # text produced so far is still in this handle's BUFFER, exactly as in a real run
+                _state["trace"].append({"ev": "FAULT", "kind": "write-assertion", "after": "partial, unflushed"})
+                raise AssertionError("injected serializer failure (vf failpoint)")
+            self._f.flush()
             _state["trace"].append({"ev": "FAULT", "kind": "write", "after": "partial"})
             raise OSError(28, "injected ENOSPC (vf failpoint)")
         self._left -= len(s)
